@@ -93,6 +93,7 @@ func runC09(c *Ctx) {
 	nFallible := 0
 	for _, f := range reach {
 		nFallible += c.errorFlowRule("C09.prop", f, encryptErrExceptions, false)
+		c.errorCarriedOnPaths("C09.prop", f, encryptErrExceptions)
 	}
 	if nFallible < 40 {
 		r.Und("C09.prop", "instance-floor", "", fmt.Sprintf("only %d fallible call sites in the walk, >= 40 confirmed by hand", nFallible))
@@ -161,6 +162,22 @@ func runC09(c *Ctx) {
 			r.Bad("C09.handlers", "Process:sweep-before-return", p.InstrPos(pa.End), "a filtered copy is returned without the final sweep of tracked maps (untagged map values would leak)")
 		} else {
 			nOK++
+		}
+		// a payload established to be a map must itself have been tracked before the sweep
+		kMapS := fmt.Sprint(c.reflectKind("Map"))
+		if isMap, found := hasAtom(pa, func(at Atom) bool {
+			return at.Op == "eq" && at.L.Is("Call", "(reflect.Value).Kind") && at.R.Is("Const", kMapS) && !strings.Contains(at.L.String(), "(reflect.Value).Index")
+		}); found && isMap && !ignored {
+			tracked := false
+			for _, s := range pa.CallsOn() {
+				switch stepCallName(s) {
+				case "(*filters/encrypt.trackedMaps).trackMap":
+					if s.Depth == 0 {
+						tracked = true
+					}
+				}
+			}
+			r.Check(tracked, "C09.handlers", "Process:map-payload-tracked", p.InstrPos(pa.End), "a payload that is a map is tracked for the final sweep", "a payload established to be a map (for example a Taggable map none of whose tags matches a key) is forwarded without ever being tracked: the sweep has nothing to visit and every value of the map leaves in plaintext")
 		}
 	}
 	r.Check(nOK > 0, "C09.handlers", "Process:sweep-before-return", p.Pos(proc.Pos()), "every successful return of a filtered copy is preceded by processUnfiltered (or the IgnoreTypes shortcut)", "no successful filtered return found")
@@ -666,7 +683,9 @@ func (c *Ctx) ruleHandlers() {
 		{"Filter", "Process", []string{
 			"type==string->filterValue+0", "type==[]uint8->filterValue+0", "taggable->filterTaggable+0", "taggable->filterField+0",
 			"type==[]string->filterSlice+0", "type==[]*string->filterSlice+0", "type==[][]uint8->filterSlice+0",
-			"taggable->filterTaggable+1", k(kMap) + "->trackMap+1", k(kStruct) + "->filterField+1", k(kStruct) + "->filterField+0"}},
+			"taggable->filterTaggable+1", k(kMap) + "->trackMap+1", k(kStruct) + "->filterField+1", k(kStruct) + "->filterField+0",
+			// a payload that is itself a map (untagged, or Taggable with tags that match no key) is tracked for the final sweep
+			k(kMap) + "->trackMap+0"}},
 		{"Filter", "filterField", []string{
 			"type==string->filterValue+0", "type==[]uint8->filterValue+0", "type==wrapperspb.StringValue->filterValue+0", "type==wrapperspb.BytesValue->filterValue+0",
 			"type==[]string->filterSlice+0", "type==[][]uint8->filterSlice+0", k(kMap) + "->trackMap+0", k(kStruct) + "->filterField+0", "taggable->filterTaggable+0", "taggable->filterField+0",
@@ -1101,6 +1120,41 @@ func runC10(c *Ctx) {
 	}
 	r.Check(okFlag, "C10.guards", "Process:nothing-to-filter", p.Pos(proc.Pos()), "before the copy, a flag that is set only where an operation other than none was found decides the unchanged early return", "no early return of the original guarded by a flag that is set only under `operation != none` dominates the deep copy")
 	r.Check(nEarly >= 3, "C10.early", "Process:early-returns", p.Pos(proc.Pos()), fmt.Sprintf("%d paths return the untouched original (nil payload, nothing to filter, zero payload)", nEarly), "fewer than 3 early returns of the original event")
+
+	// --- C10.public: "every public-classified value preserved": inside filterValue nothing that can
+	// mutate is reached on a path that did not exclude the public classification
+	if fv := c.Fn("C10.public", PkgEncrypt, "Filter", "filterValue"); fv != nil {
+		pubConst := "?"
+		if pkg := p.SSAPkgs[PkgEncrypt]; pkg != nil {
+			if k, ok := pkg.Members["PublicClassification"].(*ssa.NamedConst); ok {
+				pubConst = k.Value.Value.ExactString()
+			}
+		}
+		nMutPaths, okPub := 0, true
+		for _, pa := range c.enum("C10.public", fv, PathOpts{}) {
+			var m ssa.Instruction
+			for _, s := range pa.CallsOn() {
+				if sc := s.In.(ssa.CallInstruction).Common().StaticCallee(); sc != nil && (mut[sc] || isSink(sc)) && m == nil {
+					m = s.In
+				}
+			}
+			if m == nil {
+				continue
+			}
+			nMutPaths++
+			pub, found := hasAtom(pa, func(at Atom) bool {
+				return at.Op == "eq" && at.L.Is("Field", "Classification") && at.L.Args[0].IsParam("3:classificationTag") && at.R.Is("Const", pubConst)
+			})
+			if !found || pub {
+				okPub = false
+				r.Bad("C10.public", "filterValue:mutates-public", p.InstrPos(m), "a mutating call is reached on a path that did not exclude the public classification: a public value whose operation was overridden would be rewritten ("+p.PathSummary(pa)+")")
+				break
+			}
+		}
+		if okPub {
+			r.Check(nMutPaths >= 3, "C10.public", "filterValue:mutates-public", p.Pos(fv.Pos()), fmt.Sprintf("%d mutating paths, each after excluding the public classification", nMutPaths), "fewer than 3 mutating paths found in filterValue")
+		}
+	}
 
 	// --- C10.none
 	nProc := 0
